@@ -110,6 +110,7 @@ def containment_operator(ctx: Ctx, rep: Report, q: str) -> None:
     if n_dir == 0:
         rep.violation(q, "containment test", "no test relates the operand to self: the answer does not depend on containment", where(f))
     # ---- quantifiers
+    _quantifier_calls(ctx, rep, f, q, of)
     loops = [n for n in cfg.live if n.kind == "for"]
     truthy = [r for r in return_nodes(cfg) if not falsy_const_return(r)]
     falsy = [r for r in return_nodes(cfg) if falsy_const_return(r) and r.ast.value is not None]
@@ -147,6 +148,27 @@ def containment_operator(ctx: Ctx, rep: Report, q: str) -> None:
                 rep.violation(q, f"{snippet(neg_inside[0].ast)} inside `for {src(lp.ast.target)} in {snippet(lp.ast.iter, 30)}`", "a member of the container that does not contain the candidate ends the search: a later member that does is never asked", where(f, neg_inside[0].ast), inp="host 10.0.1.1 in group {10.0.0.0/24, 10.0.1.0/24} -> False")
             else:
                 rep.ok(f"{q}: for {src(lp.ast.target)} in {snippet(lp.ast.iter, 30)}", "some member of the container suffices; the negative answer comes after the loop", where=where(f, lp.ast))
+
+
+def _quantifier_calls(ctx: Ctx, rep: Report, f: Func, q: str, of) -> None:
+    """any()/all() over the members of the candidate or of the container (the loop-free spelling of the quantifiers)."""
+    for n in own_nodes(f.node):
+        if isinstance(n, ast.Call) and isinstance(n.func, ast.Name) and n.func.id in ("any", "all") and len(n.args) == 1 and isinstance(n.args[0], (ast.GeneratorExp, ast.ListComp)):
+            g = n.args[0].generators[0]
+            side = of(g.iter)
+            if side not in ({"other"}, {"self"}):
+                continue
+            # only positive uses (not under `not`)
+            par = getattr(n, "_parent", None)
+            negated = isinstance(par, ast.UnaryOp) and isinstance(par.op, ast.Not)
+            kind = n.func.id if not negated else ("all" if n.func.id == "any" else "any")
+            rep.instance()
+            if side == {"other"} and kind == "any":
+                rep.violation(q, snippet(n, 70), "a candidate that is a group is reported contained as soon as ONE of its members is: a positive answer does not imply that the whole group lies inside", where(f, n), inp="group {10.0.0.1, 20.0.0.1} in 10.0.0.0/24 -> True")
+            elif side == {"self"} and kind == "all":
+                rep.violation(q, snippet(n, 70), "the candidate must lie inside EVERY member of the container: a member of a group that does not contain it makes the answer negative", where(f, n))
+            else:
+                rep.ok(f"{q}: {snippet(n, 60)}", "every member of the candidate / some member of the container", where=where(f, n))
 
 
 def list_level(ctx: Ctx, rep: Report) -> None:
